@@ -140,6 +140,11 @@ struct Ctx<'a> {
     prop: &'a BTreeSet<String>,
     /// the function being translated returns Result<_, X::Error>
     errflow: bool,
+    /// file of the function being translated
+    file: String,
+    /// every translated call site: file, callee, use, start line, start column, end line, end column of the call
+    /// expression (without the `?`); columns count characters from 0 (only for `--sites`, the per-site sweep test)
+    sites: std::cell::RefCell<Vec<(String, String, String, usize, usize, usize, usize)>>,
 }
 
 fn line_of<T: Spanned>(t: &T) -> usize {
@@ -456,6 +461,18 @@ impl<'a> Ctx<'a> {
             Expr::MethodCall(m) => line_of(&m.method),
             other => line_of(other),
         };
+        {
+            let sp = strip(e).span();
+            self.sites.borrow_mut().push((
+                self.file.clone(),
+                name.clone(),
+                format!("{:?}", u),
+                sp.start().line,
+                sp.start().column,
+                sp.end().line,
+                sp.end().column,
+            ));
+        }
         let this = match u {
             Use::Try if !self.errflow => seq(
                 Sk::Call(name.clone(), line, Disp::Discarded),
@@ -960,8 +977,8 @@ fn count(s: &Sk, calls: &mut usize, bad: &mut Vec<String>, f: &FnInfo) {
 
 fn main() {
     let a: Vec<String> = std::env::args().collect();
-    if a.len() != 3 {
-        die("usage: errflow <repo root> <output .v>");
+    if a.len() != 3 && !(a.len() == 5 && a[3] == "--sites") {
+        die("usage: errflow <repo root> <output .v> [--sites <output .tsv>]");
     }
     let root = PathBuf::from(&a[1]);
     let mut files = Vec::new();
@@ -990,7 +1007,7 @@ fn main() {
             die(&format!("{}:{}: macro body calls `{}(..)`; code inside item-level macros is not translated", file, line, n));
         }
     }
-    let mut ctx = Ctx { prop: &prop, errflow: true };
+    let mut ctx = Ctx { prop: &prop, errflow: true, file: String::new(), sites: std::cell::RefCell::new(Vec::new()) };
     let mut infos = Vec::new();
     for (file, place, sig, body) in &col.fns {
         // a function that is not itself an error-flow function must not make propagating calls that it
@@ -1012,6 +1029,7 @@ fn main() {
             }
         };
         ctx.errflow = ef;
+        ctx.file = file.clone();
         if ef {
             let sk = checked(ctx.block(body, Use::Result));
             infos.push(FnInfo { name: sig.ident.to_string(), place: place.clone(), body: sk });
@@ -1070,6 +1088,13 @@ fn main() {
             std::fs::create_dir_all(d).ok();
         }
         std::fs::write(&a[2], &o).unwrap_or_else(|e| die(&format!("cannot write {}: {}", a[2], e)));
+    }
+    if a.len() == 5 {
+        let mut t = String::new();
+        for (f, n, u, l0, c0, l1, c1) in ctx.sites.borrow().iter() {
+            writeln!(t, "{}\t{}\t{}\t{}\t{}\t{}\t{}", f, n, u, l0, c0, l1, c1).unwrap();
+        }
+        std::fs::write(&a[4], t).unwrap_or_else(|e| die(&format!("cannot write {}: {}", a[4], e)));
     }
     eprintln!("errflow: {} files, {} functions, {} call sites, {} names, {} not propagated / not understood", files.len(), infos.len(), calls, prop.len(), bad.len());
     for b in &bad {
